@@ -46,6 +46,23 @@ ValuesOf(o) ==
                           <<"bogus">>, <<"right", ",", "256", "%">>, <<>>}
       [] o = "--color" -> {<<"fg", ":", "1">>, <<"bg", ":", "2">>, <<"fg", ":", "3", ",", "bg", ":", "5">>,
                            <<"fg", ":", "256">>, <<"bogus">>, <<>>}
+      (* 1, 2, 3, 4 parts; 5 and 6 valid parts; 5 parts with a bad one; no / empty / trailing-empty part; percent   *)
+      (* forms at the bound; a fraction with and without %; negative; no number                                     *)
+      [] o = "--margin" -> {<<"1">>, <<"1", ",", "2">>, <<"1", ",", "2", ",", "3">>, <<"1", ",", "2", ",", "3", ",", "5">>,
+                            <<"1", ",", "2", ",", "3", ",", "5", ",", "8">>, <<"0", ",", "0", ",", "0", ",", "0", ",", "0", ",", "0">>,
+                            <<"1", ",", "2", ",", "3", ",", "5", ",", "a">>, <<"1", ",", "2", ",", "3", ",", "5", ",">>,
+                            <<"10", "%">>, <<"1", ",", "5", "%">>, <<"49", "%">>, <<"50", "%">>, <<"1.5", "%">>, <<"1.5">>,
+                            <<"5", "%", ",", "2", ",", "10", "%", ",", "3">>, <<"2", ",", "10", "%", ",", "3">>,
+                            <<"-1">>, <<"a">>, <<>>, <<"1", ",", ",", "2">>, <<"1", ",">>, <<"2", ",", "100", "%">>}
+      [] o = "--padding" -> {<<"1">>, <<"1", ",", "2">>, <<"2", ",", "3", ",", "5">>, <<"0", ",", "1", ",", "2", ",", "3">>,
+                             <<"0", ",", "0", ",", "0", ",", "0", ",", "0">>, <<"5", "%">>, <<"50", "%">>, <<"a">>, <<>>,
+                             <<"1", ",", ",", "2">>, <<"2", ",", "10", "%", ",", "3", ",", "5", "%">>, <<"3", ",", "10", "%">>}
+      [] o = "--border-label-pos" -> {<<"3">>, <<"5">>, <<"0">>, <<"3", ":", "bottom">>, <<"7">>, <<"8", ":", "top">>, <<"bottom">>,
+                                      <<"top">>, <<"center">>, <<"-1", ":", "bottom">>, <<"center", ":", "bottom">>, <<"bogus">>, <<>>,
+                                      <<"bottom", ":", "5">>, <<"bogus", ":", "3">>, <<"3", ":", "bogus">>, <<"3", ":">>,
+                                      <<"2", ",", "BOTTOM">>, <<"1.5">>}
+      [] o \in LabelSpell \ {"--border-label-pos"} ->
+                          {<<"5">>, <<"3", ":", "bottom">>, <<"bottom">>, <<"7">>, <<"center">>, <<"-1", ":", "top">>, <<"bogus">>}
 Short(o) == CASE o = "--query" -> "-q" [] o = "--filter" -> "-f" [] o = "--delimiter" -> "-d" [] o = "--nth" -> "-n"
               [] o = "--multi" -> "-m" [] o = "--sort" -> "-s" [] OTHER -> ""
 LongValued == {o \in ReqSpell \cup OptNumSpell \cup OptStrSpell : Canon(o) = o}
@@ -71,6 +88,7 @@ Family(occ) == LET o == Canon(occ[1].o) IN
       [] o \in {"--history", "--history-size", "--no-history"} -> "history"
       [] o \in {"--expect", "--no-expect"} -> "expect" [] o \in {"--border", "--no-border"} -> "border"
       [] o \in {"--help", "-h", "--version"} -> "exit"
+      [] o \in {"--margin", "--no-margin"} -> "margin" [] o \in {"--padding", "--no-padding"} -> "padding"
       [] OTHER -> o
 
 (* ---- enumeration ---- *)
@@ -88,9 +106,14 @@ CurEnv  == IF mode = "sim" THEN se ELSE IF j = 0 THEN (IF p = 2 THEN OccSeq[i] E
 CurArgv == IF mode = "sim" THEN sa ELSE IF j = 0 THEN (IF p \in {3, 4} THEN OccSeq[i] ELSE <<>>) ELSE PArgv(OccSeq[i], OccSeq[j], p)
 Missing == mode = "enum" /\ j = 0 /\ p = 4
 
+(* an adaptive --height against a --margin / --padding with a percent part (DOCUMENTED as incompatible) *)
+Mentions(occ, a) == \E k \in 1..Len(occ) : \E m \in 1..Len(occ[k].v) : occ[k].v[m] = a
+AutoVsPercent(a, b) == /\ Canon(a[1].o) = "--height" /\ Mentions(a, "~")
+                       /\ Canon(b[1].o) \in {"--margin", "--padding"} /\ Mentions(b, "%")
 Keep == \/ mode = "sim"
         \/ j = 0
         \/ Family(OccSeq[i]) = Family(OccSeq[j])
+        \/ AutoVsPercent(OccSeq[i], OccSeq[j]) \/ AutoVsPercent(OccSeq[j], OccSeq[i])
         \/ (i * 7919 + j * 104729 + p * 31 + Seed * 17) % Sample = 0
 
 Init == /\ mode = "enum" /\ i \in 1..N /\ j = 0 /\ p = 1 /\ sf = <<>> /\ se = <<>> /\ sa = <<>> /\ n = 0
@@ -128,6 +151,8 @@ Assigns(occ) == LET o == Canon(occ[1].o) IN
       [] o = "--walker" -> {"walker"} [] o = "--tabstop" -> {"tabstop"} [] o = "--pointer" -> {"pointer"}
       [] o \in {"--tmux", "--no-tmux"} -> {"tmux"}
       [] o \in {"--border", "--no-border"} -> {"border"} [] o \in {"--help", "-h", "--version"} -> {"exit"}
+      [] o \in {"--margin", "--no-margin"} -> {"margin"} [] o \in {"--padding", "--no-padding"} -> {"padding"}
+      [] o \in LabelSpell -> {LabelField(o)}             \* the whole position: column AND side
       [] OTHER -> {}
 (* last occurrence wins, and what the earlier occurrence set elsewhere persists (incl. --history-size with a later
    --history, whichever sources they are in) *)
